@@ -10,7 +10,8 @@ from ..core import Violation, Outcome
 ID = 'C05'
 TITLE = 'merging is local (wrap under a key chain, sibling independence)'
 RULE = ('stage sequences of 1-4 mapping documents with priority / !del / !merge / !new / !notnew tags at any depth, a wrapping key chain of '
-        'length 1-3 drawn from the documents\' own key alphabet, optional unrelated sibling stage sequence under another key; non-trivial = '
+        'length 1-3 drawn from the documents\' own key alphabet, optional unrelated sibling stage sequence under another key, optional injective renaming of the string keys (new names biased towards '
+        'spellings of paths existing elsewhere: a.b, k[0]); non-trivial = '
         '>=2 stages and a deleting node or priority tag at depth >=1 in the unwrapped documents; distinct = hash of the case')
 BUDGET = {'quick': (4, 500), 'thorough': (16, 8000)}
 ASSUMPTIONS = ['documented exception: if a stage root is an explicit !del and the unwrapped result is empty the wrapped key may be removed',
@@ -20,8 +21,51 @@ STR_KEYS = ['a', 'b', 'c', 'd', 'x', '_u']
 
 
 @st.composite
+def _replace_under_notnew(draw):
+    """Two stages: a plain tree, then a document whose root is !notnew and that replaces (!del) one existing mapping by a
+    mapping holding some of its old keys and possibly a brand-new one (which is what !notnew must reject)."""
+    keys = st.sampled_from(['a', 'b', 'c', 'd', 'x'])
+    older = draw(S.mapping_doc(S.scalar_node(S.SIMPLE_SCALARS), keys, max_leaves=8, max_children=3, min_size=1))
+    path, cur = [], older
+    for _ in range(draw(st.integers(0, 2))):
+        cands = [(k, v) for k, v in cur['items'] if v['t'] == 'map' and v['items']]
+        if not cands:
+            break
+        k, cur = cands[draw(st.integers(0, len(cands) - 1))]
+        path.append(k)
+    items = []
+    for k, v in cur['items']:
+        if draw(st.booleans()):
+            items.append([k, tdoc.sc(draw(st.integers(0, 9)))])
+    if not items or draw(st.booleans()):
+        k = draw(keys)
+        if not any(k == kk for kk, _ in items):
+            items.append([k, tdoc.sc(5)])
+    node = tdoc.mp(items, flow=draw(st.booleans()), **({'del': True} if path else {}))
+    for k in reversed(path):
+        node = tdoc.mp([(k, node)])
+    node['new'] = False
+    if not path:
+        node['del'] = True
+    node['mdstyle'] = draw(st.sampled_from(['short', 'braces']))
+    # spellings of the paths that the replacement removes, relative to the replaced mapping
+    spell = []
+    for p_, n in tdoc.walk(cur):
+        if len(p_) >= 2:
+            t = ''
+            for c_ in p_:
+                t += f'[{c_}]' if isinstance(c_, int) else ('.' if t else '') + str(c_)
+            spell.append(t)
+    return [older, node], sorted(set(spell)), [k for k, _ in items]
+
+
+@st.composite
 def _case(draw):
-    docs = draw(S.tagged_stages(min_stages=1, max_stages=4, notnew=True, density=3))
+    spell, focus_keys = [], []
+    if draw(st.integers(0, 4)) == 0:
+        docs, spell, focus_keys = draw(_replace_under_notnew())
+    else:
+        docs = draw(S.tagged_stages(min_stages=1, max_stages=4, notnew=True, density=3))
     # premerge operators (!clear / !append / !extend / !prev) at string-keyed top-level positions of later stages;
     # a !prev path is absolute, so it is rewritten with the wrapping prefix in the wrapped variant
     if len(docs) >= 2 and draw(st.integers(0, 2)) == 0:
@@ -50,7 +94,29 @@ def _case(draw):
         skey = draw(st.sampled_from([k for k in STR_KEYS if k != chain[0]]))
         pos = sorted(draw(st.lists(st.integers(0, len(docs) - 1), min_size=len(sdocs), max_size=len(sdocs), unique=True)))
         sib = {'key': skey, 'docs': sdocs, 'pos': pos}
-    return {'docs': docs, 'chain': chain, 'sib': sib}
+    rename = []
+    if not has_prev and (spell or draw(st.integers(0, 2)) == 0):
+        # consistent injective renaming of string keys; the new names are biased towards spellings of paths that exist
+        # elsewhere in the documents ('a.b' where some mapping a has a child b, 'k[0]' where k holds a list)
+        keys, joins = set(), set()
+        for d in docs:
+            for p_, n in tdoc.walk(d):
+                if p_ and isinstance(p_[-1], str):
+                    keys.add(p_[-1])
+                    if len(p_) >= 2 and isinstance(p_[-2], str):
+                        joins.add(p_[-2] + '.' + p_[-1])
+                    if n['t'] == 'seq':
+                        joins.add(p_[-1] + '[0]')
+        pool = sorted(joins) * 2 + ['my-key', 'a.b', 'model v2', 'x[0]', 'b.a', 'zq']
+        used = set(keys)
+        for k in sorted(keys):
+            if k.startswith('_') or draw(st.integers(0, 1)) == 0:
+                continue
+            new = draw(st.sampled_from(spell * 3 + pool if k in focus_keys else pool))
+            if new not in used:
+                used.add(new)
+                rename.append([k, new])
+    return {'docs': docs, 'chain': chain, 'sib': sib, 'rename': rename}
 
 
 def strategy():
@@ -85,6 +151,23 @@ def wrap(doc, chain):
         else:
             cur = tdoc.mp([(k, cur)])
     return cur
+
+
+def rename_doc(node, ren):
+    out = dict(node)
+    if node['t'] == 'map':
+        out['items'] = [[ren.get(k, k) if isinstance(k, str) else k, rename_doc(v, ren)] for k, v in node['items']]
+    elif node['t'] == 'seq':
+        out['items'] = [rename_doc(v, ren) for v in node['items']]
+    return out
+
+
+def rename_value(v, ren):
+    if isinstance(v, dict):
+        return {(ren.get(k, k) if isinstance(k, str) else k): rename_value(x, ren) for k, x in v.items()}
+    if isinstance(v, list):
+        return [rename_value(x, ren) for x in v]
+    return v
 
 
 def _build(texts):
@@ -145,6 +228,25 @@ def run_case(case):
             raise Violation(f'C05: unwrapped build fails with {base[1]} but wrapped under {chain} it succeeds: {wrapped[1]!r}{src}')
         if wrapped[1] != base[1]:
             raise Violation(f'C05: unwrapped build fails with {base[1]}, wrapped under {chain} with {wrapped[1]}{src}')
+    if case.get('rename'):
+        ren = {a: b for a, b in case['rename']}
+        rtexts = [tdoc.render(rename_doc(d, ren)) for d in docs]
+        renamed = _build(rtexts)
+        labels.add('keys-renamed')
+        if any('.' in b or '[' in b for b in ren.values()):
+            labels.add('key-renamed-to-the-spelling-of-a-path')
+        rsrc = src + f'\nrenaming {ren}:\n' + '\n'.join(rtexts)
+        if base[0] == 'ok':
+            if renamed[0] != 'ok':
+                raise Violation(f'C05: the build gives {base[1]!r}, but with keys renamed injectively ({ren}) it fails with {renamed[1]}{rsrc}')
+            if O.canon(renamed[1]) != O.canon(rename_value(base[1], ren)):
+                raise Violation(f'C05: with keys renamed injectively ({ren}) the result is {renamed[1]!r}, expected the renamed result '
+                                f'{rename_value(base[1], ren)!r}{rsrc}')
+        else:
+            if renamed[0] == 'ok':
+                raise Violation(f'C05: the build fails with {base[1]}, but with keys renamed injectively ({ren}) it succeeds: {renamed[1]!r}{rsrc}')
+            if renamed[1] != base[1]:
+                raise Violation(f'C05: the build fails with {base[1]}, with keys renamed injectively ({ren}) with {renamed[1]}{rsrc}')
     if sib is not None:
         labels.add('sibling')
         stexts = [tdoc.render(d) for d in sib['docs']]
